@@ -1623,8 +1623,8 @@ def str_method(I, s, name, args, kwargs, node):
             return ListV(s.split(*args))
     if name in ("lower", "upper", "strip"):
         return getattr(s, name)()
-    if name == "startswith":
-        return s.startswith(args[0])
+    if name in ("startswith", "endswith") and all(isinstance(a, (str, tuple, int)) for a in args):
+        return getattr(s, name)(*args)
     if name == "join":
         return "<joined>"
     if name == "lstrip":
